@@ -263,6 +263,10 @@ let model_line (f : string list) : string option =
       let b = bytes_of_hex hx in
       Some (Printf.sprintf "AD %s %s %s %s %s" id (opt_str adv_str (adv_parse b)) (opt_str adv_str (adv_parse_service b))
               (opt_str radv_str (radv_parse b)) (opt_str radv_str (radv_parse_service b)))
+  | ["CE"; id; ku; ids; ca; path] ->
+      let l = if ids = "-" then [] else List.map sn (String.split_on_char '.' ids) in
+      Some (Printf.sprintf "CE %s %s %s %s" id (hex_of_bytes (ku_value (sn ku))) (hex_of_bytes (eku_value l))
+              (hex_of_bytes (bc_value (ca = "1") (optn_of path))))
   | "MC" :: id :: fields ->
       let a = comm_adv_of fields in
       let published = comm_txt a in
@@ -391,6 +395,10 @@ let spec_line (case : string list) (impl : string list) : string option =
       Some (Printf.sprintf "AR %s %s" id (b01 (mon_radv_rt r (parse_radv pa) (parse_radv ps))))
   | ["AD"; id; _hx], [pa; ps; ra; rs] ->
       Some (Printf.sprintf "AD %s %s" id (b01 (mon_adv_dec (parse_adv pa) (parse_radv ra) && mon_adv_dec (parse_adv ps) (parse_radv rs))))
+  | ["CE"; id; ku; ids; ca; path], [kv; ev; bv] ->
+      let l = if ids = "-" then [] else List.map sn (String.split_on_char '.' ids) in
+      let hb s = try bytes_of_hex s with _ -> [] in
+      Some (Printf.sprintf "CE %s %s" id (b01 (mon_certext (sn ku) l (ca = "1") (optn_of path) (hb kv) (hb ev) (hb bv))))
   | "MC" :: id :: fields, [_published; parsed; m] ->
       let a = comm_adv_of fields in
       Some (Printf.sprintf "MC %s %s" id (b01 (mon_comm_rt a (parse_pairs parsed) && (not (comm_adv_valid a) || m = "1"))))
